@@ -34,6 +34,18 @@ Theorem par_map_eq_seq : forall (A B : Type) (f : nat -> A -> res B) (i0 nw : na
   stuck (col s) = false /\ outcome (cst (col s)) = outcome (fst (seq_map f log_yield i0 items [])).
 Proof. exact @par_map_eq_seq_lem. Qed.
 
+(* iteration state is per traversal, not per list value: a second traversal of the same parallel map (fresh feeder,
+   workers, collector; any other worker count and schedule) gives the outcome of the first.  In Conc/Pipeline.v a
+   pipeline denotes a function of its source (pipe_seq / pipe_par re-run every producer from its initial state for
+   every traversal), so `run p src = run p src` holds there by reflexivity; the rows of a cross over a lazy second
+   list, m.cross(m), m.merge(m) and [m.sum(), m.mapReduce(..), m.size()] are compared on the implementation. *)
+Theorem iteration_is_repeatable : forall (A B : Type) (f : nat -> A -> res B) (i0 nw1 nw2 : nat) (items : list (res A)) (sched1 sched2 : list choice),
+  let s1 := ParMap.run f log_yield (par_init i0 nw1 items ([] : list (res B))) sched1 in
+  let s2 := ParMap.run f log_yield (par_init i0 nw2 items ([] : list (res B))) sched2 in
+  complete s1 = true -> complete s2 = true ->
+  outcome (cst (col s1)) = outcome (cst (col s2)).
+Proof. exact iteration_is_repeatable_lem. Qed.
+
 (* agents (goroutines running stage callbacks) on pairwise different stack storages: under every interleaving
    every callee sees exactly the arguments its own caller pushed, and nobody panics *)
 Theorem private_stacks_noninterference : forall (V : Type) (limit : nat) (sched : list nat) (s : sys (V := V)),
@@ -80,6 +92,7 @@ Proof. vm_compute. split; reflexivity. Qed.
 Print Assumptions collector_restores_order.
 Print Assumptions collector_reports_failure.
 Print Assumptions par_map_eq_seq.
+Print Assumptions iteration_is_repeatable.
 Print Assumptions private_stacks_noninterference.
 Print Assumptions private_stacks_finished.
 Print Assumptions shared_stack_interference_refuted.
